@@ -179,7 +179,7 @@ Proof.
   intros Hn Hr. eapply emits_cons0; [esingle|]. eapply emits_cons0; [apply dname_run; exact Hn|]. eapply emits_cons0; [esingle|].
   destruct (has_dot pre) eqn:Hd; cbn [app].
   - destruct (dname_stmt_run pre false (KBlock BIf :: s) Hn) as (ts & L & R).
-    eapply emits_cons0; [eapply emits_toks1; [rewrite lex_chunk_name, L; reflexivity|exact R]|]. eapply emits_cons0; [esingle|exact Hr].
+    eapply emits_cons0; [eapply emits_toks1; [rewrite lex_chunk_name, L; reflexivity|exact R|tail_solve]|]. eapply emits_cons0; [esingle|exact Hr].
   - pose proof (nodot_name_ok pre Hd Hn) as Hnm. eapply emits_cons0; [esingle|]. eapply emits_cons0; [esingle|]. eapply emits_cons0; [esingle|exact Hr].
 Qed.
 
